@@ -1,5 +1,7 @@
 SPECIFICATION Spec
-CONSTANT MaxMinor = 15
+CONSTANTS
+  MaxMinor = 15
+  FiveTuple = TRUE
 INVARIANT NegFlips
 INVARIANT ReverseLaw
 INVARIANT PrefixIgnoresMicro
